@@ -52,6 +52,7 @@ func c03SeqRequests(cfg c03Case) (reqs []c03Case) {
 		// path ids
 		add(func(c *c03Case) { c.Path = "/dns-query/dev3" })
 		add(func(c *c03Case) { c.Path = "/dns-query/dev1" })
+		add(func(c *c03Case) { c.Path = "/dns-query/auto1" })
 		// SNI id
 		add(func(c *c03Case) { c.SNI = "dev3.d.test" })
 		// unknown id
@@ -65,6 +66,7 @@ func c03SeqRequests(cfg c03Case) (reqs []c03Case) {
 		add(func(c *c03Case) { c.SNI = "nosuch.d.test" })
 		add(func(c *c03Case) { c.SNI = "dev_1.d.test" })
 		add(func(c *c03Case) { c.SNI = "dev1.other.test" })
+		add(func(c *c03Case) { c.SNI = "auto1.d.test" })
 	case "dns", "dnscrypt":
 		add(func(c *c03Case) {})
 		add(func(c *c03Case) { c03SetOpts(c, []string{"65074:dev1"}) })
@@ -80,6 +82,10 @@ func c03SeqRequests(cfg c03Case) (reqs []c03Case) {
 		// dedicated address of dev1, unknown dedicated address
 		add(func(c *c03Case) { c.Laddr = c03DedicatedDev1 + ":53" })
 		add(func(c *c03Case) { c.Laddr = c03DedicatedNone + ":53" })
+		// id, linked IP and dedicated address of the human-id device auto1
+		add(func(c *c03Case) { c03SetOpts(c, []string{"65074:auto1"}) })
+		add(func(c *c03Case) { c.Raddr = c03LinkedAuto1 + ":12345" })
+		add(func(c *c03Case) { c.Laddr = c03DedicatedAuto + ":53" })
 	}
 
 	return reqs
@@ -136,7 +142,7 @@ func TestVerifC03Seq(t *testing.T) {
 	r := vrt.Start("C03")
 	c03Messages = agdtest.NewConstructor(t)
 
-	dbs := vrt.Pick(r, []string{"normal", "deleted", "keys-removed"}, []string{"normal", "deleted", "keys-removed", "detached", "readdressed", "moved"})
+	dbs := vrt.Pick(r, []string{"normal", "deleted", "keys-removed", "auto-detached"}, []string{"normal", "deleted", "keys-removed", "auto-detached", "detached", "readdressed", "moved"})
 	lens := vrt.Pick(r, []int{2}, []int{2, 3})
 	r.Bound("seq_lengths", lens)
 	r.Bound("seq_db_states", dbs)
